@@ -5,7 +5,7 @@ package main
 // op line:  C04 MSM <curve> <g1|g2> <aff|jac|fold> <tower> <p> <a> <b> <r> <Gx> <Gy> <seed> <n> <shape> <nbTasks> <gomaxprocs> <nScalars> <numCPU>
 // The points are P_i = [a_i]G, the pairs (a_i, s_i) are derived from <seed>, <n>, <shape> by splitmix64
 // (same derivation in Model/MSM.lean); the model answers [Σ a_i·s_i mod r]G computed with the textbook group law.
-// result: "<x>;<y>" (coordinates hex, tower coefficients comma separated) | inf | err:len | err:nbtasks | panic | hang
+// result: "<x>;<y>" (coordinates hex, tower coefficients comma separated) | inf | err:len | err:nbtasks | panic | timeout
 
 import (
 	"fmt"
@@ -320,6 +320,25 @@ func c04MkInput(r *big.Int, seed uint64, n, shape int) *c04Input {
 		case 13:
 			src = i % 2
 			s = S0[i%3]
+		case 14: // small negative scalars r-1 … r-7: the digits of r, top digit maximal
+			s = new(big.Int).Sub(r, big.NewInt(int64(1+i%7)))
+		default:
+			// parametrised scalar shapes <kind>·0x1000 + k (chunk statistics: which windows are hit)
+			k := uint(shape % 4096)
+			switch shape / 4096 {
+			case 1: // k-bit scalars: only the windows below bit k (and the carry window) are hit
+				s = new(big.Int).And(s, c04Mask(k))
+			case 2: // r-1-(k-bit value): top digit maximal, windows above bit k are those of r
+				v := new(big.Int).And(s, c04Mask(k))
+				s = v.Sub(new(big.Int).Sub(r, big.NewInt(1)), v)
+			case 3: // low k bits cleared: only the top windows (last chunk included) are hit, top digits spread over their full range
+				v := new(big.Int).Rsh(s, k)
+				s = v.Lsh(v, k)
+			case 4: // a 16-bit band at bit k: one or two windows in the middle are hit
+				v := new(big.Int).Rsh(s, k)
+				v.And(v, big.NewInt(65535))
+				s = v.Lsh(v, k)
+			}
 		}
 		var a *big.Int
 		switch sgn {
@@ -336,6 +355,27 @@ func c04MkInput(r *big.Int, seed uint64, n, shape int) *c04Input {
 	}
 	in.A, in.S = A, S
 	return in
+}
+
+// c04Timeout bounds one MSM op (a MultiExp of the quick tier takes < 3 s, the largest one of the thorough tier < 60 s
+// on the 16-CPU host): 30 s + 0.2 ms per point, below the 180 s watchdog of main.go. After a first hang in this process
+// the following ops get a quarter of it, so that a defect that blocks many lines does not stall the run for hours.
+var c04Hangs int
+
+func c04Timeout(n int) time.Duration {
+	d := 30*time.Second + time.Duration(n)*200*time.Microsecond
+	if d > 170*time.Second {
+		d = 170 * time.Second
+	}
+	if c04Hangs > 0 {
+		d /= 4
+	}
+	return d
+}
+
+func c04Mask(k uint) *big.Int {
+	v := new(big.Int).Lsh(big.NewInt(1), k)
+	return v.Sub(v, big.NewInt(1))
 }
 
 // ---------------------------------------------------------------- executor
@@ -401,8 +441,12 @@ func execC04(a []string) string {
 		select {
 		case res := <-ch:
 			return res
-		case <-time.After(10 * time.Minute):
-			return "hang"
+		case <-time.After(c04Timeout(n)):
+			// the call did not return (lost token / deadlock): same answer as the per-op watchdog of main.go.
+			// Its goroutines stay blocked; the GOMAXPROCS it may have changed is put back for the following ops.
+			c04Hangs++
+			runtime.GOMAXPROCS(runtime.NumCPU())
+			return "timeout"
 		}
 	case "BSM":
 		// C04 BSM <curve> <grp> <tower> <p> <a> <b> <r> <Gx> <Gy> <seed> <n> <shape>
@@ -466,6 +510,10 @@ func (g *gen) c04Line(grp *c04Group, api string, n, shape, nbTasks, gmp, nScalar
 	if !g.thorough() && strings.HasPrefix(grp.curve, "bw6") && nbTasks <= 1024 && nScalars == n && g.rng.intn(2) == 0 {
 		return // the reference scalar multiplication over a 633/761-bit field dominates the quick tier
 	}
+	g.c04Emit(grp, api, n, shape, nbTasks, gmp, nScalars)
+}
+
+func (g *gen) c04Emit(grp *c04Group, api string, n, shape, nbTasks, gmp, nScalars int) {
 	g.emit("C04 MSM %s %s %s %s %x %x %x %s %s %s %x", grp.curve, grp.grp, api, grp.params, g.rng.u64(), n, shape,
 		c04HexInt(nbTasks), c04HexInt(gmp), c04HexInt(nScalars), runtime.NumCPU())
 }
@@ -611,6 +659,268 @@ func genC04(g *gen) {
 		}
 	}
 	c04ShimGen(g)
+	// (7) chunk-statistics lattice. Last: a panic in a worker goroutine of the library cannot be recovered and ends the
+	// harness process, so the lines most likely to provoke one come after everything else
+	for gi, key := range c04Order {
+		g.c04Stats(c04Groups[key], gi)
+	}
+}
+
+// ---------------------------------------------------------------- (7) chunk statistics × window bands × semaphore
+//
+// For c ≥ 10 the code computes per-chunk statistics: a chunk whose load is ≥ 115 % of the mean is split in two workers
+// (one more token in the semaphore when NbTasks < NumCPU), the last chunk uses the bucket array of lastC(c) ≠ c.
+// Uniform scalars never produce an overweight chunk; the shapes below make one / the last / more than half / all
+// non-empty chunks overweight, for n in every band of the window choice, for the task counts of the semaphore path
+// and of the free path, on every group (each group has its own generated copy of the code).
+
+func c04NbChunks(bits, c int) int { return (bits + c - 1) / c }
+func c04LastC(bits, c int) int    { return c + 1 - (c04NbChunks(bits, c)*c - bits) }
+
+// mirror of the split decision of MultiExp (only used to choose n / NbTasks; not part of the comparison):
+// window used by the first leaf of the recursion for n points and k tasks
+func c04LeafC(cs []int, bits, n, k int) int {
+	cost := func(nbTasks, nbCpus, cpt int) int {
+		tot := nbTasks
+		for nbTasks >= nbCpus {
+			nbTasks -= nbCpus
+			tot += cpt
+		}
+		if nbTasks > 0 {
+			tot += cpt
+		}
+		return tot
+	}
+	if k <= 0 {
+		k = 2 * runtime.NumCPU()
+	}
+	for depth := 0; depth < 40; depth++ {
+		c := c04BestC(cs, n)
+		c2 := c04BestC(cs, n/2)
+		pre := cost(c04NbChunks(bits, c), k, n+(1<<c))
+		post := cost(2*c04NbChunks(bits, c2), k, n/2+(1<<c2))
+		if post >= pre {
+			return c
+		}
+		n, k = n/2, (k+1)/2
+	}
+	return 0
+}
+
+// the scalar shapes of one band: active window c, nb chunks
+func c04StatShapes(bits, c int) (dense, over, highOver, neg, high, band []int) {
+	nb := c04NbChunks(bits, c)
+	clampK := func(k int) int {
+		if k < 1 {
+			k = 1
+		}
+		if k > bits-1 {
+			k = bits - 1
+		}
+		return k
+	}
+	// m full windows + the carry window: every full window is overweight iff 100·nb ≥ 115·(m+1/2);
+	// more than half of the chunks are overweight for nb/2 < m ≤ mHi
+	mHi := (200*nb - 115) / 230
+	mLo := nb/2 + 1
+	for m := mLo; m <= mHi; m++ {
+		over = append(over, 0x1000+clampK(m*c))
+		// the m top windows: more than half of the chunks overweight, the last one included
+		highOver = append(highOver, 0x3000+clampK((nb-m)*c))
+	}
+	for _, m := range []int{1, 2, nb / 8, nb / 4, 3 * nb / 8, nb/2 - 1, nb / 2, mHi + 1, mHi + 2, nb - 2, nb - 1} {
+		if m >= 1 && m < nb {
+			dense = append(dense, 0x1000+clampK(m*c), 0x1000+clampK(m*c+c/2))
+		}
+	}
+	for _, k := range []int{1, 3, c - 1, c, c + 1, nb / 4 * c, nb / 2 * c, mLo * c, mHi * c} {
+		neg = append(neg, 0x2000+clampK(k))
+	}
+	for _, j := range []int{1, 2, 3, nb / 4, nb / 2, 3 * nb / 4} { // the j top windows are hit
+		if j < nb {
+			high = append(high, 0x3000+clampK((nb-j)*c))
+		}
+	}
+	high = append(high, 0x3000+clampK(bits-c04LastC(bits, c)+1), 0x3000+clampK(bits-2))
+	for _, j := range []int{0, 1, nb / 2, nb - 3} {
+		if k := j*c + c/2; j >= 0 && k+17 <= bits {
+			band = append(band, 0x4000+k)
+		}
+	}
+	return
+}
+
+func (g *gen) c04Stats(grp *c04Group, gi int) {
+	ncpu := runtime.NumCPU()
+	bits := grp.r.BitLen()
+	heavy := strings.HasPrefix(grp.curve, "bw6") || strings.HasPrefix(grp.curve, "bls24") || grp.grp == "g2"
+	// one curve per distinct fr.Bits gets the wider sweep in the quick tier
+	wide := map[string]bool{"bls12-377": true, "bn254": true, "bls12-381": true, "secp256k1": true, "bw6-633": true, "bw6-761": true}[grp.curve]
+	semTasks := []int{1, 2, 3, ncpu - 1}
+	freeTasks := []int{ncpu, 0, -1, ncpu + 1, 16, 64, 1024}
+	apis := []string{"aff", "jac"}
+	scaleCap := 0
+	line := func(n, c, shape, t, gmp int) {
+		// the requested window must be the one the leaves of the call select: scale n by the number of halvings,
+		// otherwise fall back to NumCPU tasks (free path) resp. one task (never splits)
+		if c04LeafC(grp.cs, bits, n, t) != c {
+			ok := false
+			for d := 1; d <= 6 && n<<d <= scaleCap; d++ {
+				if c04LeafC(grp.cs, bits, n<<d, t) == c {
+					n, ok = n<<d, true
+					break
+				}
+			}
+			if !ok {
+				alt := []int{ncpu - 1, 3, 2, 1} // same path, fewer workers
+				if t <= 0 || t >= ncpu {
+					alt = []int{ncpu, ncpu - 1, 3, 2, 1}
+				}
+				for _, t = range alt {
+					if c04LeafC(grp.cs, bits, n, t) == c {
+						break
+					}
+				}
+			}
+		}
+		g.c04Emit(grp, apis[g.rng.intn(2)], n, shape, t, gmp, n)
+	}
+	pick := func(l []int) int { return l[g.rng.intn(len(l))] }
+	// the small-negative shape and the parametrised shapes on small inputs (c < 10: no statistics, full model cross-check)
+	if g.thorough() || wide {
+		for _, shape := range []int{14, 0x1000 + bits/2, 0x2000 + 9, 0x3000 + bits - 9, 0x4000 + bits/3} {
+			if !g.thorough() && g.rng.intn(3) != 0 {
+				continue
+			}
+			g.c04Line(grp, []string{"aff", "jac", "fold"}[g.rng.intn(3)], pick([]int{1, 2, 7, 33, 100}), shape, pick(append(semTasks, freeTasks...)), 0, -1)
+		}
+	}
+	nband := 0
+	for ci, c := range grp.cs {
+		if c < 10 {
+			continue
+		}
+		lo := c04FirstN(grp.cs, c)
+		if lo == 0 {
+			continue
+		}
+		hi := 2 * lo
+		if ci+1 < len(grp.cs) {
+			if h := c04FirstN(grp.cs, grp.cs[ci+1]); h > 0 {
+				hi = h - 1
+			}
+		}
+		up := c04LastC(bits, c) > c // the last window is wider than c: bucket array of the next size
+		maxN := g.budget(9300, 1<<20)
+		if heavy {
+			maxN = g.budget(9300, 1<<17)
+		}
+		if !g.thorough() && wide {
+			maxN = 21000
+			if up && grp.curve == "bls12-381" {
+				maxN = 1 << 18 // 255 = 15·17: the only window ≥ 10 with lastC > c on 255-bit scalar fields
+			}
+			if c > 12 && !up {
+				continue
+			}
+		}
+		if lo > maxN {
+			continue
+		}
+		scaleCap = g.budget(0, 100000) // free task counts split the input: scale n so that the halves select c
+		nOf := func() int {            // near the lower edge of the band (cheapest), sometimes anywhere
+			w := lo/16 + 1
+			if g.thorough() && c <= 12 && g.rng.intn(4) == 0 {
+				w = hi - lo
+			}
+			if lo+w > hi {
+				w = hi - lo
+			}
+			return lo + 1 + g.rng.intn(w+1)
+		}
+		dense, over, highOver, neg, high, band := c04StatShapes(bits, c)
+		if len(over) == 0 { // cannot happen for fr.Bits ≥ 64 (nb ≥ 4)
+			continue
+		}
+		rot := gi + nband
+		nband++
+		semT := func(i int) int {
+			t := semTasks[(rot+i)%len(semTasks)]
+			if heavy && t == 1 && !g.thorough() {
+				t = ncpu - 1 // same path, 15 workers
+			}
+			return t
+		}
+		if !g.thorough() {
+			hiOver := highOver[rot%len(highOver)]
+			switch {
+			case c > 12 && lo > 21000: // the expensive band: one line, semaphore path, every non-empty chunk (also the last) overweight
+				line(lo+1+g.rng.intn(64), c, hiOver, ncpu-1, 0)
+			case c >= 12 && lo > 9300, !wide:
+				line(nOf(), c, hiOver, semT(0), 0)
+				line(nOf(), c, over[rot%len(over)], semT(1), 0)
+			default:
+				// more than half of the chunks overweight on the semaphore path
+				line(nOf(), c, over[rot%len(over)], semT(0), 0)
+				// overweight last chunk, top digits over their full range / maximal; free path and semaphore path alternate
+				t := semT(1)
+				if rot%2 == 0 {
+					t = freeTasks[(rot/2)%2]
+				}
+				switch {
+				case up || rot%3 == 0:
+					line(nOf(), c, hiOver, t, 0)
+				case rot%3 == 1:
+					line(nOf(), c, high[rot%3], t, 0)
+				default:
+					line(nOf(), c, neg[rot%len(neg)], t, 0)
+				}
+				if up {
+					line(nOf(), c, high[rot%3], semT(2), 0)
+				}
+			}
+			continue
+		}
+		// thorough: up to four fixed lines per band, then a sample of the whole shape lattice (big windows are expensive:
+		// n > 45000 costs 0.3 … 3 s per line on each side)
+		line(nOf(), c, highOver[(rot+1)%len(highOver)], semT(1), 0)
+		if c <= 14 || up {
+			line(nOf(), c, over[rot%len(over)], semT(0), 0)
+		}
+		if c <= 13 || up {
+			line(nOf(), c, high[0], pick(freeTasks), 0)
+		}
+		if c <= 12 {
+			line(nOf(), c, 14, semT(2), 0)
+		}
+		all := append(append(append(append(append(append([]int{6}, dense...), over...), highOver...), neg...), high...), band...)
+		want := 0
+		switch {
+		case c <= 11:
+			want = 8
+		case c == 12:
+			want = 5
+		case up || grp.curve == "bn254" && grp.grp == "g1":
+			want = 2
+		}
+		for si, shape := range all {
+			if g.rng.intn(len(all)) >= want {
+				continue
+			}
+			t := semT(si)
+			if si%2 == 1 {
+				t = pick(freeTasks)
+			}
+			if c >= 13 && t == 1 {
+				t = ncpu - 1
+			}
+			gmp := 0
+			if g.rng.intn(4) == 0 {
+				gmp = pick([]int{1, 2, ncpu, 2 * ncpu})
+			}
+			line(nOf(), c, shape, t, gmp)
+		}
+	}
 }
 
 // GV_C04_CRASH=1 also emits the lines that are known to crash the harness process (panic in a goroutine of the library)
